@@ -840,14 +840,20 @@ func init() {
 			}
 			// builders of a (possibly cyclic) array in variable v: shape -> statements
 			arrShapes := map[string]func(v string) []N{
-				"self":     func(v string) []N { return []N{asg(v, arr(iv(1))), stmt(mcall(vr(v), "push", vr(v)))} },
-				"selfTwice": func(v string) []N { return []N{asg(v, arr(iv(1))), stmt(mcall(vr(v), "push", vr(v))), stmt(mcall(vr(v), "push", vr(v)))} },
-				"self2":    func(v string) []N { return []N{asg(v, arr(iv(2))), stmt(mcall(vr(v), "push", vr(v)))} },
-				"unrolled": func(v string) []N { return []N{asg(v, arr(iv(1))), asg(v+"i", arr(iv(1))), stmt(mcall(vr(v), "push", vr(v+"i"))), stmt(mcall(vr(v+"i"), "push", vr(v)))} },
-				"tree":     func(v string) []N { return []N{asg(v, arr(iv(1), arr(iv(1), arr(iv(1)))))} },
-				"viaSet":   func(v string) []N { return []N{asg(v, arr(iv(1), iv(0))), stmt(N{"k": "assignIdx", "o": vr(v), "i": iv(1), "e": vr(v), "pp": false})} },
-				"shared":   func(v string) []N { return []N{asg(v+"i", arr(iv(1))), asg(v, arr(vr(v+"i"), vr(v+"i")))} },
-				"twins":    func(v string) []N { return []N{asg(v, arr(arr(iv(1)), arr(iv(1))))} },
+				"self": func(v string) []N { return []N{asg(v, arr(iv(1))), stmt(mcall(vr(v), "push", vr(v)))} },
+				"selfTwice": func(v string) []N {
+					return []N{asg(v, arr(iv(1))), stmt(mcall(vr(v), "push", vr(v))), stmt(mcall(vr(v), "push", vr(v)))}
+				},
+				"self2": func(v string) []N { return []N{asg(v, arr(iv(2))), stmt(mcall(vr(v), "push", vr(v)))} },
+				"unrolled": func(v string) []N {
+					return []N{asg(v, arr(iv(1))), asg(v+"i", arr(iv(1))), stmt(mcall(vr(v), "push", vr(v+"i"))), stmt(mcall(vr(v+"i"), "push", vr(v)))}
+				},
+				"tree": func(v string) []N { return []N{asg(v, arr(iv(1), arr(iv(1), arr(iv(1)))))} },
+				"viaSet": func(v string) []N {
+					return []N{asg(v, arr(iv(1), iv(0))), stmt(N{"k": "assignIdx", "o": vr(v), "i": iv(1), "e": vr(v), "pp": false})}
+				},
+				"shared": func(v string) []N { return []N{asg(v+"i", arr(iv(1))), asg(v, arr(vr(v+"i"), vr(v+"i")))} },
+				"twins":  func(v string) []N { return []N{asg(v, arr(arr(iv(1)), arr(iv(1))))} },
 			}
 			cut := func(vs ...string) []N {
 				var out []N
@@ -878,7 +884,9 @@ func init() {
 			dictShapes := map[string]func(v string) []N{
 				"self":  func(v string) []N { return []N{asg(v, dict1("a", iv(1))), setAttr(v, "k", vr(v))} },
 				"self2": func(v string) []N { return []N{asg(v, dict1("a", iv(2))), setAttr(v, "k", vr(v))} },
-				"loop2": func(v string) []N { return []N{asg(v, dict1("a", iv(1))), asg(v+"i", dict1("a", iv(1))), setAttr(v, "k", vr(v+"i")), setAttr(v+"i", "k", vr(v))} },
+				"loop2": func(v string) []N {
+					return []N{asg(v, dict1("a", iv(1))), asg(v+"i", dict1("a", iv(1))), setAttr(v, "k", vr(v+"i")), setAttr(v+"i", "k", vr(v))}
+				},
 				"tree":  func(v string) []N { return []N{asg(v, dict1("a", iv(1))), setAttr(v, "k", dict1("a", iv(1)))} },
 				"plain": func(v string) []N { return []N{asg(v, dict1("a", iv(1)))} },
 			}
@@ -944,6 +952,11 @@ func init() {
 				{{comp("cq", bin("+", vr("n"), iv(1))), asg("n", iv(10)), fn("g1", []string{"m"}, asg("n", vr("m")), stmt(vr("cq"))), stmt(bin("+", bin("*", call("g1", iv(100)), iv(1000)), vr("n")))}},
 				{{fn("h1", []string{}, stmt(bin("+", vr("n"), iv(1)))), asg("n", iv(10)), fn("g1", []string{"n"}, stmt(call("h1"))), stmt(call("g1", iv(100)))}},
 				{{comp("cq", bin("*", vr("n"), iv(2))), asg("n", iv(3))}, {fn("g1", []string{"n"}, ifs(bin(">", vr("n"), iv(5)), ret(vr("cq"))), stmt(call("g1", bin("+", vr("n"), iv(1)))))}, {stmt(call("g1", iv(0)))}},
+				// every evaluation of `&name = expr` makes a computed value of its own: attributes written to one result stay there
+				{{fn("mk", []string{"nn"}, comp("cq", bin("+", this("nn"), iv(100))), stmt(N{"k": "computedAttr", "n": "cq", "a": "nn", "ac": []string{"n", "n"}, "e": vr("nn"), "pp": false}), ret(N{"k": "raw", "n": "cq", "pp": false})),
+					asg("x1", call("mk", iv(1))), asg("x2", call("mk", iv(2))), stmt(N{"k": "arr", "xs": []N{vr("x1"), vr("x2")}, "pp": false})}},
+				{{fn("mk", []string{"nn"}, comp("cq", bin("*", this("nn"), iv(2))), stmt(N{"k": "computedAttr", "n": "cq", "a": "nn", "ac": []string{"n", "n"}, "e": vr("nn"), "pp": false}), ret(N{"k": "raw", "n": "cq", "pp": false})),
+					asg("x1", call("mk", iv(5)))}, {asg("x2", call("mk", iv(7)))}, {stmt(bin("+", bin("*", vr("x1"), iv(100)), vr("x2")))}},
 				{{comp("k1", bin("+", vr("x"), iv(1))), comp("k2", bin("+", vr("k1"), this("x"))), stmt(N{"k": "computedAttr", "n": "k2", "a": "x", "ac": []string{"x"}, "e": iv(100), "pp": false}), asg("x", iv(1)), stmt(vr("k2"))}},
 				{{fn("g1", []string{"n"}, comp("lq", bin("+", vr("n"), iv(1))), stmt(vr("lq"))), asg("n", iv(5)), stmt(call("g1", iv(7)))}},
 				{{asg("n", iv(1)), fn("g1", []string{}, asg("n", iv(2)), stmt(vr("n"))), stmt(bin("+", bin("*", call("g1"), iv(10)), vr("n")))}},
